@@ -7,8 +7,10 @@ int ghost_log_enabled;
 tp_t g_last_now;               /* last value returned by steady_clock::now() (monotone clock) */
 #ifndef VEC_MAX
 #define VEC_MAX (1UL << 20)    /* symbolic vector lengths are <= VEC_MAX; loops are closed by invariants */
+#define HAVOC(v) do { __typeof__(v) __h; v = __h; } while (0)   /* make a (zero-initialised) global arbitrary */
 #endif
 /* floor((a - b) / 1s) for a >= b, on (sec,nsec) pairs — no division */
 #define SEC_DIFF(a, b) ((a).sec - (b).sec - (((a).nsec < (b).nsec) ? 1 : 0))
 #define FINITE_F(x) ((x) >= -1.0e6f && (x) <= 1.0e6f)
+#define HAVOC(v) do { __typeof__(v) __h; v = __h; } while (0)   /* make a (zero-initialised) global arbitrary */
 #endif
